@@ -22,7 +22,11 @@
 (*            the cross-section emission branch in the same units (0 if the     *)
 (*            evaluated grid is not saturated everywhere);                      *)
 (*            rel = "jensen" (generic table, twin = weight-averaged             *)
-(*            coefficient): lo = min(tk - tx), tmin, tmax of tk scaled by S     *)
+(*            coefficient): lo = min(tk - tx), tmin, tmax of tk scaled by S;    *)
+(*            ck, cx: the evaluation configuration <<interp, route, extra>> of  *)
+(*            spec/KTableHistory.tla the k-table twin and the cross-section     *)
+(*            twin were evaluated under: the relation is claimed for twins      *)
+(*            under the SAME configuration of the alphabet only                 *)
 EXTENDS Integers, Sequences, TLC, Json, IOUtils, TLCExt, Dyad
 VARIABLE l
 TraceLog == ndJsonDeserialize(IOEnv.TRACE_FILE)
@@ -44,7 +48,10 @@ DegenOk(e)  == /\ Len(e.a) = Len(e.b)
 BoundsOk(e) == e.lo >= e.S - Tol /\ e.hi <= e.S + Tol
 
 TwinTol == 1000
-TwinOk(e) == /\ e.nk = e.nx /\ e.nk > 0 /\ e.gdev = 0 /\ e.ng = e.ngw
+CfgOk(c)  == /\ Len(c) = 3 /\ c[1] \in {"linear", "exp"} /\ c[2] \in {"global", "api", "ctor", "setter"}
+             /\ c[3] \in {"none", "stream", "deactive"}
+TwinOk(e) == /\ CfgOk(e.ck) /\ e.ck = e.cx
+             /\ e.nk = e.nx /\ e.nk > 0 /\ e.gdev = 0 /\ e.ng = e.ngw
              /\ (e.nreq = 0 \/ e.nk = e.nreq)
              /\ CASE e.rel = "equal"  -> e.dev >= 0 /\ e.dev <= TwinTol + e.slack
                   [] e.rel = "jensen" -> e.lo >= 0 - Tol /\ e.tmin >= 0 /\ e.tmax <= e.S
